@@ -39,7 +39,10 @@ class ProgGen:
         self.env = {}        # var -> current hi bound (locals assigned so far, state)
         self.nloc = 0
         self.ternaries = True
+        self.wide = True
         self.in_call = False
+        self.wide_ins = []
+        self.wide_outs = []
         self.guards = True
 
     # ---------------------------------------------------------------- expressions
@@ -54,7 +57,8 @@ class ProgGen:
             return E(v, 0, self.env[v], True)
         if r < 0.65 and self.consts:
             n, v = rng.choice(self.consts)
-            return E('self.%s' % n, v, v, True)
+            # a constructor constant is treated as a range: another instance may be built with any value in [0, v + 20]
+            return E('self.%s' % n, 0, v + 20, True)
         v = rng.choice([0, 1, 2, 3, 5, 7, 8, 15, 16, 100, 255, 256, 1000, 65535, rng.randint(0, 300)])
         return E(str(v), v, v, True)
 
@@ -108,6 +112,42 @@ class ProgGen:
                     return E('(%s >> %d)' % (self.widen(a).src, k), a.lo >> k, a.hi >> k, True)
                 sh = E('(%s & 7)' % b.src, 0, 7, b.wide)
                 return E('(%s >> %s)' % (self.widen(a).src, sh.src), 0, a.hi, True)
+        return a
+
+    def wide_expr(self, depth=0):
+        """expression over ports wider than 32 bits and constants that need more than 32 bits; never stored in a local
+        or state variable (those are 32-bit integers in Verilog), only handed to prepare()/put() of a wide output"""
+        rng = self.rng
+        # every intermediate must fit the narrowest context Verilog can give it: the narrowest wide port (40 bits)
+        WLIM = (1 << 40) - 1
+        if depth >= 2 or rng.random() < 0.3:
+            r = rng.random()
+            if r < 0.45 and self.wide_ins:
+                n, w = rng.choice(self.wide_ins)
+                if w > 40:
+                    m = rng.choice([0xFFFFFFFFFF, (1 << 36) - 1, 0xFF00FF00FF])
+                    return E('(self.%s.get() & %d)' % (n, m), 0, m, True)
+                return E('self.%s.get()' % n, 0, (1 << w) - 1, True)
+            if r < 0.8:
+                v = rng.choice([(1 << 32) + 5, 0xFFFFFFFFFF, (1 << 40) - 1, 1 << 33, 0x123456789A, (1 << 38) + rng.getrandbits(20), 0xFFFFFFFF, 1 << 31])
+                return E(str(v), v, v, True)
+            return self.leaf()
+        a, b = self.wide_expr(depth + 1), self.wide_expr(depth + 1)
+        for _ in range(5):
+            op = rng.choice(['&', '|', '^', '+', '>>', '<<'])
+            if op == '&':
+                return E('(%s & %s)' % (a.src, b.src), 0, min(a.hi, b.hi), True)
+            if op in ('|', '^'):
+                return E('(%s %s %s)' % (a.src, op, b.src), 0, max(pow2ceil(a.hi), pow2ceil(b.hi)), True)
+            if op == '+' and a.hi + b.hi <= WLIM:
+                return E('(%s + %s)' % (a.src, b.src), a.lo + b.lo, a.hi + b.hi, True)
+            if op == '>>':
+                k = rng.randint(0, 36)
+                return E('(%s >> %d)' % (a.src, k), a.lo >> k, a.hi >> k, True)
+            if op == '<<':
+                k = rng.randint(0, 12)
+                if (a.hi << k) <= WLIM:
+                    return E('(%s << %d)' % (a.src, k), a.lo << k, a.hi << k, True)
         return a
 
     def cond(self, depth=0):
@@ -175,6 +215,9 @@ class ProgGen:
                 envs.append(self.env)
                 self.merge(env0, envs)
                 return lines
+        if r < 0.36 and self.wide_outs:
+            n, w = rng.choice(self.wide_outs)
+            return [pad + 'self.%s.%s(%s)' % (n, 'prepare' if self.seq else 'put', self.wide_expr().src)]
         if r < 0.55 and self.outs:
             n, w = rng.choice(self.outs)
             # the transpiler refuses an if-expression inside a call: keep them (mostly) out of prepare()/put() arguments
@@ -228,6 +271,9 @@ class ProgGen:
         self.ins = [('a%d' % i, rng.choice([1, 1, 3, 8, 12, 16, 24])) for i in range(nin)]
         self.outs = [('q%d' % i, rng.choice([1, 4, 8, 16, 32])) for i in range(nout)]
         self.consts = [('k%d' % i, rng.choice([1, 2, 3, 10, 200, rng.randint(0, 1000)])) for i in range(rng.randint(0, 2))]
+        if self.wide and rng.random() < 0.3:
+            self.wide_ins = [('w%d' % i, rng.choice([40, 48, 64])) for i in range(rng.randint(1, 2))]
+            self.wide_outs = [('x%d' % i, rng.choice([40, 64])) for i in range(rng.randint(1, 2))]
         if self.seq:
             for i in range(rng.randint(1, 3)):
                 bound = rng.choice([1, 3, 7, 15, 255, 9, 99, 65535])
@@ -243,17 +289,19 @@ class ProgGen:
                     body.append('        %s = (%s & %d)' % (key, key, bound))
                 else:
                     body.append('        %s = (%s %% %d)' % (key, key, bound + 1))
+        all_ins = self.ins + self.wide_ins
+        all_outs = self.outs + self.wide_outs
         # every output is driven on every path in a combinational block (no latches)
         if not self.seq:
-            pre = ['        self.%s.put(0)' % n for n, w in self.outs]
+            pre = ['        self.%s.put(0)' % n for n, w in all_outs]
             body = pre + body
-        args = [n for n, w in self.ins] + [n for n, w in self.outs] + [n for n, v in self.consts]
+        args = [n for n, w in all_ins] + [n for n, w in all_outs] + [n for n, v in self.consts]
         L = ['import py4hw', '', '', 'class %s(py4hw.Logic):' % cls,
              '    def __init__(self, parent, name, %s):' % ', '.join(args),
              '        super().__init__(parent, name)']
-        for n, w in self.ins:
+        for n, w in all_ins:
             L.append("        self.%s = self.addIn('%s', %s)" % (n, n, n))
-        for n, w in self.outs:
+        for n, w in all_outs:
             L.append("        self.%s = self.addOut('%s', %s)" % (n, n, n))
         for n, v in self.consts:
             L.append('        self.%s = %s' % (n, n))
@@ -264,7 +312,7 @@ class ProgGen:
         L += self.hoist
         L += body
         L.append('')
-        return {'src': '\n'.join(L), 'cls': cls, 'seq': self.seq, 'ins': self.ins, 'outs': self.outs,
+        return {'src': '\n'.join(L), 'cls': cls, 'seq': self.seq, 'ins': all_ins, 'outs': all_outs,
                 'consts': self.consts, 'state': [(n, i, b) for n, i, b in self.state]}
 
 
